@@ -1,4 +1,4 @@
-CONSTANTS N = 5 WS = {1}
+CONSTANTS N = 4 WS = {1,2,3}
 SPECIFICATION SSpec
 INVARIANTS DimOK Orthogonal SearchNeverFails EmitsAllowed ReturnAllowed
 CHECK_DEADLOCK FALSE
